@@ -226,4 +226,29 @@ theorem decodeAll_encodeAll (cfg : Cfg) (D : Bytes → Bytes) (Z : Bytes → Opt
       simp only
       rw [ih (fun q hq => hall q (by simp [hq])) f (by simp at hf; omega)]
 
+theorem readPackets_encodeAll (cfg : Cfg) (D : Bytes → Bytes) (Z : Bytes → Option Bytes)
+    (hmax31 : maxFrame < 2 ^ 31) (ps : List Bytes) (rest : Bytes) (hall : ∀ p ∈ ps, Fits cfg D Z p) :
+    readPackets cfg Z ps.length (encodeAll cfg.threshold D ps ++ rest) = .ok (ps, rest) := by
+  induction ps with
+  | nil => simp [readPackets, encodeAll]
+  | cons p t ih =>
+    have hp := hall p (by simp)
+    have e : encodeAll cfg.threshold D (p :: t) ++ rest
+        = encodeFrame cfg.threshold D p ++ (encodeAll cfg.threshold D t ++ rest) := by
+      simp [encodeAll]
+    simp only [List.length_cons, readPackets]
+    have hrp : readPacket cfg Z ((encodeAll cfg.threshold D (p :: t) ++ rest).length + 1) 0
+        (encodeAll cfg.threshold D (p :: t) ++ rest) = .ok (p, encodeAll cfg.threshold D t ++ rest) := by
+      unfold readPacket
+      rw [e, readPayload_encodeFrame cfg D Z p _ hp.nonempty hp.zlib hp.frame hp.cap hmax31]
+      simp only
+      have : p.isEmpty = false := by
+        cases hh : p with
+        | nil => exact absurd hh hp.nonempty
+        | cons a r => rfl
+      simp [this]
+    rw [hrp]
+    simp only
+    rw [ih (fun q hq => hall q (by simp [hq]))]
+
 end Gate.C01
